@@ -12,6 +12,7 @@ import Driver.C04
 import Driver.C07
 import Driver.C08
 import Driver.C17
+import Driver.C16
 open Lean
 
 namespace Driver
@@ -28,6 +29,7 @@ def handle (j : Json) : Json :=
   | .ok "C08" => C08.handle j
   | .ok "C09" => C08.handle j
   | .ok "C17" => C17.handle j
+  | .ok "C16" => C16.handle j
   | _ => badOp
 
 partial def loop (hin hout : IO.FS.Stream) : IO Unit := do
